@@ -3,6 +3,7 @@ package main
 import (
 	"bytes"
 	"encoding/base64"
+	"encoding/binary"
 	"fmt"
 	"math/rand"
 	"strings"
@@ -187,6 +188,55 @@ func scenarioExhaustive(t *traceWriter, rng *rand.Rand) {
 				s.truth(l, br, seq(1, uint64(N+1)))
 			}
 			s.update(l.id, c.old, cp, proof, fmt.Sprintf("class=exh.%s", proofClassNames[c.pc]))
+		}
+		s.end()
+	}
+	// the note format's 100-signature-line limit, at every distance from the boundary: for witness key sets of
+	// 1..3 keys, a submitted checkpoint with 96..101 signature lines (the log's plus unknown ones) on the
+	// first-use, growth and refresh paths, each followed by an honest probe (log line only)
+	T := uint64(N + 1)
+	for k := 1; k <= 3; k++ {
+		kinds := []string{"cosigv1", "ed25519", "cosigv1"}
+		var pwk []witKey
+		for i := 0; i < k; i++ {
+			pwk = append(pwk, genWitKey(rng, fmt.Sprintf("pad-wit%d", i), kinds[i]))
+		}
+		var logs []*logDef
+		for i := 0; i < 18; i++ {
+			logs = append(logs, &logDef{origin: fmt.Sprintf("pad.example/%d/log-%d", k, i), key: key})
+		}
+		s := newSession(t, stores[k%len(stores)], logs, pwk)
+		li := 0
+		for inLines := 96; inLines <= 101; inLines++ {
+			for path := 0; path < 3; path++ {
+				l := logs[li]
+				li++
+				s.truth(l, trunk, seq(1, uint64(N+1)))
+				stored := uint64(0)
+				var proof [][]byte
+				if path > 0 {
+					stored = []uint64{0, 2, T}[path]
+					s.update(l.id, 0, signNote(cpText(l.origin, stored, trunk.root(stored)), key.signer), [][]byte{}, "class=setup")
+					proof = trunk.consistency(stored, T)
+				}
+				if proof == nil {
+					proof = [][]byte{}
+				}
+				cp := signNote(cpText(l.origin, T, trunk.root(T)), key.signer)
+				cp = append(cp, junkSigLines(rng, inLines-1)...)
+				res := s.update(l.id, stored, cp, proof, fmt.Sprintf("class=pad.%d.%d", k, inLines))
+				at := stored
+				if res.cls == "none" {
+					at = T
+				}
+				if at > 0 {
+					pr := trunk.consistency(at, T)
+					if pr == nil {
+						pr = [][]byte{}
+					}
+					s.update(l.id, at, signNote(cpText(l.origin, T, trunk.root(T)), key.signer), pr, "class=probe probe=1")
+				}
+			}
 		}
 		s.end()
 	}
@@ -679,6 +729,22 @@ func scenarioNoteMut(t *traceWriter, rng *rand.Rand) {
 			oc := signNote(cpText(other.origin, 7, tr.root(7)), other.key.signer)
 			s.updateFresh(defs, wk, l, withState, tr, old, oc, proof, "mut.crossOrigin")
 		}
+		// relabelled signatures: a text carrying one log's origin but signed by ANOTHER configured log's key is
+		// first shown to the witness under that other log's id (so that key verifies it, whatever the verdict),
+		// then resubmitted under the origin's own id with the signature line relabelled to the right key's
+		// name and hash (signature bytes unchanged).  Anything remembered about "this text and signature were
+		// good" without remembering under which key shows here.
+		for _, pair := range [][2]*logDef{{defs[0], defs[2]}, {defs[2], defs[0]}} {
+			victim, signer := pair[0], pair[1]
+			forged := signNote(cpText(victim.origin, 7, tr.root(7)), signer.key.signer)
+			s.updateFresh(defs, wk, signer, false, tr, 0, forged, [][]byte{}, "mut.relabelPrime")
+			rl := relabelSig(forged, victim.key.verif.Name(), victim.key.verif.KeyHash())
+			vold, vproof := uint64(0), [][]byte{}
+			if victim == l {
+				vold, vproof = old, proof
+			}
+			s.updateFresh(defs, wk, victim, withState, tr, vold, rl, vproof, "mut.relabel")
+		}
 		// unknown id
 		s.update(f_log.ID("nobody.example/x"), 0, valid, [][]byte{}, "class=mut.unknownLog")
 		s.end()
@@ -700,6 +766,21 @@ func (s *session) updateFresh(defs []*logDef, wk []witKey, l *logDef, withState 
 			s.update(defs[0].id, 0, signNote(cpText(defs[0].origin, 3, tr.root(3)), defs[0].key.signer), [][]byte{}, "class=setup")
 		}
 	}
+}
+
+// relabelSig rewrites the last signature line of a note to carry another key name and key hash, keeping the
+// signature bytes.
+func relabelSig(n []byte, name string, hash uint32) []byte {
+	lines := strings.Split(strings.TrimSuffix(string(n), "\n"), "\n")
+	last := lines[len(lines)-1]
+	i := strings.LastIndex(last, " ")
+	raw, err := base64.StdEncoding.DecodeString(last[i+1:])
+	if err != nil || len(raw) < 5 {
+		return n
+	}
+	binary.BigEndian.PutUint32(raw[:4], hash)
+	lines[len(lines)-1] = "\u2014 " + name + " " + base64.StdEncoding.EncodeToString(raw)
+	return []byte(strings.Join(lines, "\n") + "\n")
 }
 
 func (s *session) end2reset(l *logDef, withState bool, tr *branch) {}
